@@ -7,7 +7,7 @@ use std::panic::{catch_unwind, AssertUnwindSafe};
 pub const OPS: &[&str] = &[
     "get_resolution", "deserialize", "serialize", "roundtrip", "cell_to_parent", "cell_to_children",
     "get_res0_cells", "is_first_child", "get_stride", "get_num_cells", "get_num_children", "uncompact",
-    "compact_cover", "compact_max", "compact_total", "uncompact_total", "order", "order_children", "reference", "purity", "hex", "hex_parse",
+    "compact_cover", "compact_max", "compact_total", "uncompact_total", "order", "order_children", "reference", "purity", "curve_roundtrip", "hex", "hex_parse",
     "lonlat_to_cell", "cell_to_lonlat", "cell_to_boundary", "cell_area",
 ];
 
@@ -394,6 +394,33 @@ pub fn run_op(op: &str, a: &[String]) -> Result<(), String> {
             let my = ky.iter().min().copied().unwrap_or(u64::MAX);
             if mx >= my {
                 return Err(format!("{} < {} but a listed descendant {} of the first is not below a listed descendant {} of the second", hx(x), hx(y), hx(mx), hx(my)));
+            }
+            Ok(())
+        }
+        "curve_roundtrip" => {
+            // C17 (bounded stand-in for deep curve levels): the probe nudged strictly inside the lattice triangle of
+            // position s (the nudge of the repository's own test) is located back at s; depth 1..=28
+            use a5::core::hilbert::{ij_to_s, s_to_anchor, Orientation, NO, YES};
+            let n = pu64(&a[0]) as usize;
+            let oi = pu64(&a[1]) as usize;
+            let sv = pu64(&a[2]);
+            let ors = [Orientation::UV, Orientation::VU, Orientation::UW, Orientation::WU, Orientation::VW, Orientation::WV];
+            if n < 1 || n > 28 || sv >= (1u64 << (2 * n)) {
+                return Ok(());
+            }
+            let o = ors[oi % 6];
+            let got = guard(|| {
+                let an = s_to_anchor(sv, n, o);
+                let (fx, fy) = (an.flips[0], an.flips[1]);
+                let (dx, dy) = if fx == NO && fy == NO { (0.1, 0.1) } else if fx == YES && fy == NO { (0.1, -0.2) } else if fx == NO && fy == YES { (-0.1, 0.2) } else { (-0.1, -0.1) };
+                let p = a5::coordinate_systems::IJ::new(an.offset.x() + dx, an.offset.y() + dy);
+                (an.k, ij_to_s(p, n, o))
+            })?;
+            if got.1 != sv {
+                return Err(format!("depth {} orientation {:?}: position {} is located back at {}", n, o, sv, got.1));
+            }
+            if got.0 > 3 {
+                return Err(format!("anchor digit k = {}", got.0));
             }
             Ok(())
         }
@@ -1005,8 +1032,33 @@ pub fn generate(op: &str, rng: &mut Rng, budget: u64, f: &mut dyn FnMut(Vec<Stri
                         break;
                     }
                 }
-                match it % 4 {
+                match it % 6 {
                     0 => {}
+                    4 | 5 => {
+                        // faces given as a base cell, as quintants (some subdivided), partially, or not at all
+                        cells.clear();
+                        let all = rng.below(4) == 0;
+                        for o in 0..12u8 {
+                            match if all { rng.below(2) } else { rng.below(4) } {
+                                0 => cells.push(Cell { o, seg: 0, s: 0, r: 0 }),
+                                1 => {
+                                    for seg in 0..5 {
+                                        let q = Cell { o, seg, s: 0, r: 1 };
+                                        if rng.below(3) == 0 { cells.extend(kids(q, 2)); } else { cells.push(q); }
+                                    }
+                                }
+                                2 => cells.push(Cell { o, seg: rng.below(5) as usize, s: 0, r: 1 }),
+                                _ => {}
+                            }
+                        }
+                        if it % 6 == 5 && op == "compact_cover" {
+                            // overlapping: add base cells of faces that are also present as quintants, and the world cell
+                            for _ in 0..(1 + rng.below(3)) {
+                                cells.push(Cell { o: rng.below(12) as u8, seg: 0, s: 0, r: 0 });
+                            }
+                            if rng.below(4) == 0 { cells.push(WORLD); }
+                        }
+                    }
                     1 => {
                         // overlapping ancestors / descendants (resolution >= 1 only)
                         let n = cells.len();
@@ -1062,6 +1114,40 @@ pub fn generate(op: &str, rng: &mut Rng, budget: u64, f: &mut dyn FnMut(Vec<Stri
                 }
                 shuffle(&mut l, rng);
                 if !f(vec![flist(&l)]) {
+                    return;
+                }
+            }
+        }
+        "curve_roundtrip" => {
+            // digit-pattern families at every depth 1..=28 x 6 orientations, then random positions
+            for n in 1..=28u64 {
+                let lim = 1u64 << (2 * n);
+                let mut fam: Vec<u64> = vec![0, lim - 1, 0x5555_5555_5555_5555 % lim, 0xAAAA_AAAA_AAAA_AAAA % lim,
+                                             0x3333_3333_3333_3333 % lim, 0xCCCC_CCCC_CCCC_CCCC % lim, 0x6666_6666_6666_6666 % lim, 0x9999_9999_9999_9999 % lim];
+                for k in 0..n {
+                    for d in 1..4u64 {
+                        fam.push(d << (2 * k));                       // single digit
+                        fam.push((d << (2 * k)).wrapping_sub(1) % lim);      // run of 3s below it
+                        fam.push(lim - 1 - (d << (2 * k)) % lim);
+                    }
+                }
+                for d in 1..4u64 {
+                    fam.push((0x5555_5555_5555_5555u64.wrapping_mul(d)) % lim); // one repeated digit
+                }
+                fam.sort_unstable();
+                fam.dedup();
+                for o in 0..6u64 {
+                    for sv in &fam {
+                        if !f(vec![n.to_string(), o.to_string(), sv.to_string()]) {
+                            return;
+                        }
+                    }
+                }
+            }
+            for _ in 0..budget {
+                let n = 1 + rng.below(28);
+                let sv = rng.below(1u64 << (2 * n));
+                if !f(vec![n.to_string(), rng.below(6).to_string(), sv.to_string()]) {
                     return;
                 }
             }
